@@ -17,9 +17,6 @@ deriving DecidableEq, Repr, Inhabited
 
 structure Pool where
   simple        : Option SpawnSpec            -- `some` = a SimpleTaskPool with this fixed function/callbacks
-  name          : Option String               -- the `name` argument of the constructor
-  idx           : Nat                         -- index in the class-level list of pools
-  size0         : Cap                         -- ghost: the `pool_size` given to the constructor
   startCalls    : Nat
   sem           : Sem
   locked        : Bool
@@ -41,8 +38,8 @@ structure Pool where
   ambiguous     : Bool                        -- behaviour depended on the iteration order of a Python set
 deriving Repr, Inhabited
 
-def Pool.init (size : Cap) (simple : Option SpawnSpec) (name : Option String := none) (idx : Nat := 0) : Pool :=
-  { simple := simple, name := name, idx := idx, size0 := size, startCalls := 0,
+def Pool.init (size : Cap) (simple : Option SpawnSpec) : Pool :=
+  { simple := simple, startCalls := 0,
     sem := { value := size, waiters := [] }, locked := false, closed := false, tasks := [], reqs := [],
     groups := [], running := [], cancelledR := [], ended := [], metaCancelled := [], apis := [],
     gathers := [], closedWaiters := [], emit := [], log := [], names := [], orders := [], ambiguous := false }
@@ -313,21 +310,26 @@ def suspendTask (p : Pool) (t : Nat) (ph : Phase) : Pool :=
 
 def reqOf (p : Pool) (tk : PTask) : Req := p.reqs[tk.req]?.getD default
 
-/-- run a user callback; `true` = the wrapper is now suspended inside a coroutine callback -/
-def runCb (p : Pool) (t : Nat) (tk : PTask) (isEnd : Bool) : Pool × Bool :=
+/-- entering a user callback: the log entry (with the counters and the registry that files the task at that very
+moment) and the callback's own user code -/
+def cbBegin (p : Pool) (t : Nat) (tk : PTask) (isEnd : Bool) : Pool :=
   let r := p.reqOf tk
-  let spec := if isEnd then r.endCb else r.cancelCb
-  let hs := if isEnd then r.hooks.endCb else r.hooks.cancelCb
   let c := p.counters
   let k := p.lookupRunning (Int.ofNat t)
   let ev := if isEnd then Ev.endCb t c.1 c.2.1 c.2.2 k else Ev.cancelCb t c.1 c.2.1 c.2.2 k
-  let evDone := if isEnd then Ev.endCbDone t else Ev.cancelCbDone t
-  let evRaise := if isEnd then Ev.endCbRaised t else Ev.cancelCbRaised t
-  match spec with
+  (p.logEv ev).runHooks tk.req (if isEnd then r.hooks.endCb else r.hooks.cancelCb)
+
+def evCbDone (t : Nat) (isEnd : Bool) : Ev := if isEnd then .endCbDone t else .cancelCbDone t
+def evCbRaised (t : Nat) (isEnd : Bool) : Ev := if isEnd then .endCbRaised t else .cancelCbRaised t
+
+/-- run a user callback; `true` = the wrapper is now suspended inside a coroutine callback -/
+def runCb (p : Pool) (t : Nat) (tk : PTask) (isEnd : Bool) : Pool × Bool :=
+  let r := p.reqOf tk
+  match (if isEnd then r.endCb else r.cancelCb) with
   | .none => (p, false)
-  | .plain => (((p.logEv ev).runHooks tk.req hs).logEv evDone, false)
-  | .raises x => ((((p.logEv ev).runHooks tk.req hs).logEv evRaise).modTask t fun k => { k with pendingExc := some x }, false)
-  | .coro => (((p.logEv ev).runHooks tk.req hs).suspendTask t (if isEnd then .inEndCb else .inCancelCb), true)
+  | .plain => ((p.cbBegin t tk isEnd).logEv (evCbDone t isEnd), false)
+  | .raises x => (((p.cbBegin t tk isEnd).logEv (evCbRaised t isEnd)).modTask t fun k => { k with pendingExc := some x }, false)
+  | .coro => ((p.cbBegin t tk isEnd).suspendTask t (if isEnd then .inEndCb else .inCancelCb), true)
 
 /-- `self._tasks_ended[id] = self._tasks_running.pop(id)`, falling back to `_tasks_cancelled`; `none` = KeyError -/
 def moveToEnded (p : Pool) (t : Nat) : Option Pool :=
